@@ -246,6 +246,69 @@ def h5_scale(timeout=300, part=None, family="general", **kw):
                           "laparams": "defaults, boxes_flow 0.5 or None"}, timeout, concretize=conc, shims={"namespace_shims": shims}, part=part, int_lo=-4, int_hi=16)
 
 
+# ----------------------------------------------------------------------------------------------- H6 grouping = components of the neighbour relation
+def _lines3(ys, sizes):
+    import pdfminer.layout as lt
+    lines = []
+    for i, (y, sz) in enumerate(zip(ys, sizes)):
+        c = lt.LTChar.__new__(lt.LTChar)
+        c.set_bbox((0, y, sz, y + sz))
+        c._text, c.size, c.upright, c.fontname, c.adv, c.matrix = "abc"[i], sz, True, "F", sz, (1, 0, 0, 1, 0, y)
+        l = lt.LTTextLineHorizontal(0.1)
+        l.add(c)
+        lines.append(l)
+    return lines
+
+
+def _components(n, edges):
+    comp = list(range(n))
+
+    def find(a):
+        while comp[a] != a:
+            a = comp[a]
+        return a
+    for a, b in edges:
+        comp[find(a)] = find(b)
+    groups = {}
+    for i in range(n):
+        groups.setdefault(find(i), set()).add(i)
+    return sorted(sorted(g) for g in groups.values())
+
+
+def _group3(ys, sizes, la):
+    """(partition found by group_textlines, partition = connected components of `b in a.find_neighbors(plane, line_margin)`)"""
+    import pdfminer.layout as lt
+    import pdfminer.utils as u
+    lines = _lines3(ys, sizes)
+    plane = u.Plane((0, 0, 100, 100))
+    plane.extend(lines)
+    edges = [(i, lines.index(nb)) for i, l in enumerate(lines) for nb in l.find_neighbors(plane, la.line_margin)]
+    exp = _components(len(lines), edges)
+    lines2 = _lines3(ys, sizes)
+    boxes = list(lt.LTLayoutContainer((0, 0, 100, 100)).group_textlines(la, lines2))
+    got = sorted(sorted(lines2.index(l) for l in b) for b in boxes)
+    return got, exp
+
+
+def h6_group3(timeout=200, part=None, **kw):
+    """three left-aligned one-glyph lines of sizes 10 or 20 at symbolic heights: the text boxes are exactly the connected components of the neighbour relation (each line asks with ITS OWN
+    height: the relation is not symmetric, so every line has to be asked)"""
+    shims = C08.setup()
+    import pdfminer.layout as lt
+
+    def fn(ex):
+        sizes = [(10, 20)[ex.choice(2, "s%d" % i)] for i in range(3)]
+        ys = [ex.real("y%d" % i, 0, 70) for i in range(3)]
+        la = laparams()
+        got, exp = _group3(ys, sizes, la)
+        ex.require(got == exp, "text boxes %r, the connected components of the neighbour relation are %r" % (got, exp), ys=ys, sizes=sizes)
+
+    def conc(m, info):
+        return {"ys": [symx.mval(m, v) for v in info["ys"]], "sizes": info["sizes"]}
+    return core.run_symx("H6_group3", fn, [lt.LTLayoutContainer.group_textlines, lt.LTTextLineHorizontal.find_neighbors], {"lines": "three, left-aligned, sizes 10 or 20, symbolic y in [0,70]", "laparams": "defaults"},
+                         timeout, concretize=conc, shims={"namespace_shims": shims}, part=part, int_lo=-4, int_hi=8)
+
+
 # ----------------------------------------------------------------------------------------------- replay
 def _char(t, bb):
     from pdfminer.layout import LTChar
@@ -260,6 +323,10 @@ def replay(harness, inp):
     import pdfminer.layout as lt
     import pdfminer.utils as u
     from fractions import Fraction as F
+    if harness == "H6_group3":
+        ys = [F(y) for y in inp["ys"]]
+        got, exp = _group3(ys, inp["sizes"], lt.LAParams())
+        return None if got == exp else "three left-aligned lines of sizes %r at y = %r: text boxes %r, the connected components of the neighbour relation are %r" % (inp["sizes"], [float(y) for y in ys], got, exp)
     if harness == "H1_line":
         # exact replay: the real code on Fraction boxes and parameters
         def ch(t, bb):
@@ -330,7 +397,7 @@ def replay(harness, inp):
 
 
 def jobs(tier):
-    J = []
+    J = [Job("H6_group3:%d" % k, "h6_group3", {"part": [k, 12, 10]}, 300, "H6_group3") for k in range(12)]
     if tier == "quick":
         for k in range(3):
             J.append(Job("H1_line:%d" % k, "h1_line", {"part": [k, 3, 7]}, 300, "H1_line"))
